@@ -99,7 +99,9 @@ func mustReject(t *rapid.T, s *rt.Sub, iss *type3.RateLimitedIssuer, req []byte,
 	s.Nontrivial(req, []byte(class))
 	resp, key, err, panicked := evaluate(iss, req)
 	if panicked {
-		s.Class("panicked(reported-by-C03)")
+		// "rejected with an error and no response": a panic is not an error return (and what lies behind the AEAD
+		// cannot be reached by C03's byte mutations, so it is reported here)
+		rt.Fail(t, "C07/panic/"+class, "issuer panicked (%v) on a request of class %s: %s", err, class, rt.Hex(req))
 		return
 	}
 	if err == nil {
@@ -267,6 +269,48 @@ func TestIssuer(t *testing.T) {
 		}
 		c.requestKey, c.aadKey = bad, bad
 		mustReject(t, s, iss, c.build(), "crafted-undecodable-request-key")
+		// plaintexts the honest client never sends (they sit behind the AEAD, byte mutation cannot reach them)
+		if iss.OriginIndexKey("") == nil { // (a drawn extra origin may be the empty name)
+			for _, n := range []int{0, 1, 32, 64, 33} {
+				c = base
+				c.inner = ref.EncodeInnerRequest(sess.KeyID[0], blindedMsg, make([]byte, n)) // all-zero padding = the empty origin name
+				mustReject(t, s, iss, c.build(), "crafted-empty-origin-not-registered")
+			}
+		}
+		for _, padTo := range []int{len(sess.Origin) + 1, len(sess.Origin) + 40, 4096} {
+			c = base
+			po := make([]byte, padTo)
+			copy(po, sess.Origin+"x") // an unregistered look-alike in a padding the client would not produce
+			if iss.OriginIndexKey(sess.Origin+"x") == nil {
+				c.inner = ref.EncodeInnerRequest(sess.KeyID[0], blindedMsg, po)
+				mustReject(t, s, iss, c.build(), "crafted-unregistered-origin-odd-padding")
+			}
+		}
+		{
+			// not asserted either way (the property does not list it), but it must not panic and must not return an error AND a response:
+			// the registered name in a non-standard padding, an out-of-range blinded message, bytes behind the inner request
+			odd := []([]byte){
+				ref.EncodeInnerRequest(sess.KeyID[0], blindedMsg, append([]byte(sess.Origin), 0, 0, 0)),
+				ref.EncodeInnerRequest(sess.KeyID[0], bytes.Repeat([]byte{0xff}, 256), pad(sess.Origin)),
+				append(append([]byte{}, inner...), 1, 2, 3),
+				ref.EncodeInnerRequest(sess.KeyID[0]^0xFF, blindedMsg, pad(sess.Origin)),
+			}
+			for _, in := range odd {
+				c = base
+				c.inner = in
+				s.Eval()
+				resp, key, err, panicked := evaluate(iss, c.build())
+				if panicked {
+					rt.Fail(t, "C07/panic/crafted-odd-inner", "issuer panicked (%v) on a validly encrypted and signed request with an unusual inner request", err)
+					return
+				}
+				if err != nil && (resp != nil || key != nil) {
+					rt.Fail(t, "C07/response-with-error/crafted-odd-inner", "issuer returned an error AND output bytes")
+					return
+				}
+				s.Class("observed:crafted-odd-inner(not-asserted)")
+			}
+		}
 		c = base
 		c.inner = inner[:gen.UniformRange(t, 0, 258, "innercut")] // inner request does not parse
 		mustReject(t, s, iss, c.build(), "crafted-truncated-inner-request")
